@@ -282,3 +282,22 @@ Theorem C01_members_of_one_epoch_derive_the_same_leaf_secrets :
       oa = Some (TSecret sa) -> ob = Some (TSecret sb) -> sa = sb.
 Proof. exact shared_epoch_gives_shared_leaf_secrets. Qed.
 Print Assumptions C01_members_of_one_epoch_derive_the_same_leaf_secrets.
+
+(* PathSecretGenerator::next_secret as translated from tree_kem/path_secret.rs, called once per
+   non-filtered node and once more for the commit secret, computes the chains of the model with
+   derive := DeriveSecret(., "path"): from a fresh generator the committer's chain, from
+   starting_with(s) a receiver's / joiner's chain *)
+Theorem C01_translated_path_secret_generator_computes_the_chains :
+  forall (H : hash_alg) flt s random,
+    chain_gen H flt psgen_new random = committer_chain (list N) (path_derive H) flt random /\
+    chain_gen H flt (psgen_starting_with s) random = receiver_chain (list N) (path_derive H) flt s.
+Proof. exact translated_generator_chains. Qed.
+Print Assumptions C01_translated_path_secret_generator_computes_the_chains.
+
+Theorem C01_translated_generator_receiver_reaches_the_committers_commit_secret :
+  forall (H : hash_alg) flt r k s random',
+    nth k flt true = false ->
+    secret_at (list N) (fst (chain_gen H flt psgen_new r)) k = Some s ->
+    snd (chain_gen H (skipn k flt) (psgen_starting_with s) random') = snd (chain_gen H flt psgen_new r).
+Proof. exact generator_receiver_reaches_the_committers_commit_secret. Qed.
+Print Assumptions C01_translated_generator_receiver_reaches_the_committers_commit_secret.
